@@ -10,8 +10,10 @@
 package c03
 
 import (
+	"bytes"
 	"context"
 	"encoding/binary"
+	"errors"
 	"fmt"
 	"io/fs"
 	"os"
@@ -380,7 +382,10 @@ func RunCase(c *Case) (r result) {
 				r.msg = fmt.Sprintf("valid-by-construction module rejected by the %s: %v", eng, err)
 				return
 			}
-			if o := wz.Classify(err); o.Kind == wz.KInternal {
+			// (error texts quote names taken from the input - section, export, import names -, which
+			// the fuzzer fills with strings from its dictionary such as "runtime error: ...": text
+			// that occurs verbatim in the input says nothing about the runtime)
+			if o := wz.Classify(scrubInput(err, c.Input)); o.Kind == wz.KInternal {
 				r.msg = fmt.Sprintf("CompileModule (%s) failed with an internal error: %v", eng, o)
 				return
 			}
@@ -397,6 +402,32 @@ func RunCase(c *Case) (r result) {
 		rt.Close(ctx)
 	}
 	return
+}
+
+// scrubInput returns err (or an error with the same text) in which every stretch of at least 6
+// bytes that occurs verbatim in the input is replaced by "<input>". Errors that carry a Go
+// runtime error or an exit code as a value are returned unchanged.
+func scrubInput(err error, in []byte) error {
+	var re runtime.Error
+	if err == nil || errors.As(err, &re) {
+		return err
+	}
+	msg := err.Error()
+	var sb strings.Builder
+	for i := 0; i < len(msg); {
+		l := 0
+		for i+l < len(msg) && bytes.Contains(in, []byte(msg[i:i+l+1])) {
+			l++
+		}
+		if l >= 6 {
+			sb.WriteString("<input>")
+			i += l
+			continue
+		}
+		sb.WriteByte(msg[i])
+		i++
+	}
+	return errors.New(sb.String())
 }
 
 func rejectClass(err error) string {
@@ -546,7 +577,7 @@ func execute(ctx context.Context, rt wazero.Runtime, cm wazero.CompiledModule, e
 		}()
 		mod, err := rt.InstantiateModule(cctx, cm, wazero.NewModuleConfig().WithName("").WithStartFunctions())
 		if err != nil {
-			if o := wz.Classify(err); o.Kind == wz.KInternal {
+			if o := wz.Classify(scrubInput(err, cmInput)); o.Kind == wz.KInternal {
 				done <- fmt.Sprintf("instantiation of an accepted module failed internally on the %s: %v", eng, o)
 				return
 			}
